@@ -4,8 +4,8 @@ import UF.Spec.Engine
 import UF.Spec.DnsEngine
 import UF.Spec.Cosmetic
 /- Ops of work group B (C01, C02, C15). Return `none` for ops of other groups. -/
-namespace UF.Ops
-open UF
+namespace UF.Ops.B
+open UF UF.B
 
 /-- Sorted, de-duplicated list of byte strings, rendered as one token. -/
 def outTextSet (ts : List Bytes) : String :=
@@ -19,6 +19,13 @@ def decIdxNetRule (w : W) : Option (NetRule × Idx) :=
 def retrieveFrom {α} (tbl : List (α × Idx)) (idx : Idx) : Option α :=
   (tbl.find? (·.2 == idx)).map (·.1)
 
+/-- Executable form of the theorems' hypotheses on the rule list (`DomainsWF`, `TextDeterminesRule`,
+    unique storage indexes = `RetrievalOK` for `retrieveFrom`); a line violating them is `ood`. -/
+def netHypsOK (L : List (NetRule × Idx)) : Bool :=
+  L.all (fun p => p.1.permDomains.all fun d => !d.isEmpty && d.getLast? != some (ch '.')) &&
+  L.all (fun p => L.all fun p' => p.1.text != p'.1.text || p'.1 == { p.1 with listID := p'.1.listID }) &&
+  (L.map (·.2)).eraseDups.length == L.length
+
 /-- `c01.matchall ((idx R)…) Q psl addrs (pat…)`: model = the three-table engine built by folding
     `addRule` over the rules in storage order; spec = linear scan. Answers: sorted text sets. -/
 def opC01 (args : List W) : String :=
@@ -26,6 +33,7 @@ def opC01 (args : List W) : String :=
   | [.l rs, q, psl, addrs, pats] =>
     match rs.mapM decIdxNetRule, decRequest q, decPslTable psl, decAddrTable addrs, decPatTable pats with
     | some L, some q, some psl, some addrs, some pats =>
+      if !netHypsOK L then "ood -" else
       let ext := mkExt psl addrs pats
       let e := Engine.build djb2 Facts.shortcutLength L
       let model := e.matchAll djb2 Facts.shortcutLength (retrieveFrom L) ext q
@@ -58,6 +66,7 @@ def opC02 (args : List W) : String :=
         match goBasic with
         | none => none
         | some t => nrs.find? (·.text == t)
+      if !(netHypsOK (hostLevelNet L) && (L.map (·.2)).eraseDups.length == L.length) then "ood -" else
       let ext := mkExt psl addrs pats
       let d := DnsEngine.build djb2 Facts.shortcutLength L
       let model := d.matchRequest djb2 Facts.shortcutLength (retrieveFrom L) ext basic q
@@ -76,17 +85,36 @@ def opC15 (args : List W) : String :=
   | [.l rs, host, css, js, gen, psl] =>
     match rs.mapM decCosRule, host.bytes?, css.bool?, js.bool?, gen.bool?, decPslTable psl with
     | some L, some host, some css, some js, some gen, some psl =>
+      if !(L.all fun r => r.permDomains.all fun d => !d.isEmpty) then "ood -" else
       let ext := mkExt psl [] []
       let t := CosTable.build L
       outSel (t.matchHost ext host css js gen) ++ " " ++ outSel (specCosmetic ext L host css js gen)
     | _, _, _, _, _, _ => "bad-decode"
   | _ => "bad-arity"
 
+/-- `c01.hash x<s> i j`: `FastHash s` and `FastHashBetween s i j` (checked indexing). -/
+def opC01Hash (args : List W) : String :=
+  match args with
+  | [s, i, j] =>
+    match s.bytes?, i.nat?, j.nat? with
+    | some s, some i, some j =>
+      let hb := match fastHashBetween? s i j with
+        | some v => toString v.toNat
+        | none => "PANIC"
+      s!"{(fastHash s).toNat}:{hb} -"
+    | _, _, _ => "bad-decode"
+  | _ => "bad-arity"
+
+end UF.Ops.B
+
+namespace UF.Ops
+
 def dispatchB (op : String) (args : List W) : Option String :=
   match op with
-  | "c01.matchall" => some (opC01 args)
-  | "c02.dns" => some (opC02 args)
-  | "c15.cosm" => some (opC15 args)
+  | "c01.matchall" => some (B.opC01 args)
+  | "c01.hash" => some (B.opC01Hash args)
+  | "c02.dns" => some (B.opC02 args)
+  | "c15.cosm" => some (B.opC15 args)
   | _ => none
 
 end UF.Ops
